@@ -53,24 +53,28 @@ func (a pcState) join(b pcState) pcState {
 // of events a Defer instruction schedules for function exit.
 // Blocks for which skipEdge(from,to) is true are treated as infeasible edges.
 func PathCount(fn *ssa.Function, event func(ssa.Instruction) int, deferred func(*ssa.Defer) int, skipEdge func(from, to *ssa.BasicBlock) bool) map[*ssa.Return]Interval {
+	if len(fn.Blocks) == 0 {
+		return map[*ssa.Return]Interval{}
+	}
+	return PathCountFrom(fn, fn.Blocks[0], 0, event, deferred, skipEdge)
+}
+
+// PathCountFrom is PathCount for the paths that start at instruction index
+// startIdx of block start (events before it are not counted; Defers before it
+// are not pending).
+func PathCountFrom(fn *ssa.Function, start *ssa.BasicBlock, startIdx int, event func(ssa.Instruction) int, deferred func(*ssa.Defer) int, skipEdge func(from, to *ssa.BasicBlock) bool) map[*ssa.Return]Interval {
 	in := make([]pcState, len(fn.Blocks))
-	out := make([]pcState, len(fn.Blocks))
 	res := map[*ssa.Return]Interval{}
 	if len(fn.Blocks) == 0 {
 		return res
 	}
-	in[0] = pcState{set: true}
-	work := []*ssa.BasicBlock{fn.Blocks[0]}
-	inWork := map[int]bool{0: true}
-	for len(work) > 0 {
-		b := work[0]
-		work = work[1:]
-		inWork[b.Index] = false
-		st := in[b.Index]
-		if !st.set {
-			continue
-		}
-		for _, ins := range b.Instrs {
+	// the start block may be re-entered through a loop from its top; model the
+	// partial first visit separately
+	first := true
+	work := []*ssa.BasicBlock{start}
+	inWork := map[int]bool{start.Index: true}
+	run := func(b *ssa.BasicBlock, st pcState, from int) pcState {
+		for _, ins := range b.Instrs[from:] {
 			switch x := ins.(type) {
 			case *ssa.Defer:
 				if deferred != nil {
@@ -83,17 +87,26 @@ func PathCount(fn *ssa.Function, event func(ssa.Instruction) int, deferred func(
 				st.hi = sat(st.hi + st.phi)
 				st.plo, st.phi = 0, 0
 			case *ssa.Return:
-				res[x] = Interval{st.lo, st.hi}
+				n := event(ins)
+				iv := Interval{sat(st.lo + n), sat(st.hi + n)}
+				if old, ok := res[x]; ok {
+					if old.Lo < iv.Lo {
+						iv.Lo = old.Lo
+					}
+					if old.Hi > iv.Hi {
+						iv.Hi = old.Hi
+					}
+				}
+				res[x] = iv
 			default:
 				n := event(ins)
 				st.lo = sat(st.lo + n)
 				st.hi = sat(st.hi + n)
 			}
 		}
-		if out[b.Index] == st {
-			// unchanged; successors already saw it (unless first visit)
-		}
-		out[b.Index] = st
+		return st
+	}
+	propagate := func(b *ssa.BasicBlock, st pcState) {
 		for _, s := range b.Succs {
 			if skipEdge != nil && skipEdge(b, s) {
 				continue
@@ -107,6 +120,22 @@ func PathCount(fn *ssa.Function, event func(ssa.Instruction) int, deferred func(
 				}
 			}
 		}
+	}
+	for len(work) > 0 {
+		b := work[0]
+		work = work[1:]
+		inWork[b.Index] = false
+		if first {
+			first = false
+			st := run(b, pcState{set: true}, startIdx)
+			propagate(b, st)
+			continue
+		}
+		st := in[b.Index]
+		if !st.set {
+			continue
+		}
+		propagate(b, run(b, st, 0))
 	}
 	return res
 }
